@@ -686,6 +686,10 @@ def run_placeholder(job):
 # in front of and behind the placeholder: the literal text must arrive unchanged around the value the placeholder stands for.  The
 # atoms cannot spell a placeholder themselves (names are upper case), so prefix + value + suffix is the only documented reading.
 EMB_ATOMS = ['@', 'u', ':']
+EMB_SHAPES = [((1, 2), ['@INPUT@', '@INPUT0@', '@OUTPUT0@', '@OUTPUT1@', '@OUTDIR@', '@PLAINNAME@', '@BASENAME@']),
+              ((2, 1), ['@INPUT0@', '@INPUT1@', '@OUTPUT@', '@OUTPUT0@', '@OUTDIR@']),
+              ((2, 2), ['@INPUT0@', '@INPUT1@', '@OUTPUT0@', '@OUTPUT1@', '@OUTDIR@']),
+              ((0, 1), ['@OUTPUT@', '@OUTPUT0@', '@OUTDIR@'])]
 EMB_PH = {'custom_target': ['@OUTPUT@', '@INPUT@', '@OUTDIR@', '@PLAINNAME@', '@BASENAME@', '@OUTPUT0@', '@INPUT0@'],
           'run_target': ['@SOURCE_ROOT@', '@BUILD_ROOT@'],
           'generator': ['@OUTPUT@', '@INPUT@', '@PLAINNAME@', '@BASENAME@', '@BUILD_DIR@']}
@@ -704,14 +708,27 @@ def run_embedded(job):
     root = os.path.join(scratch_root(), 'c03em.%d' % os.getpid())
     shutil.rmtree(root, ignore_errors=True)
     ctx = emb_contexts(n)
-    cases = []          # (name, placeholder, prefix, suffix)
+    cases = []          # (name, placeholder, prefix, suffix, shape)
     for ph in EMB_PH[where]:
         for pre in ctx:
             for suf in ctx:
-                cases.append(('e%d' % len(cases), ph, pre, suf))
+                cases.append(('e%d' % len(cases), ph, pre, suf, (1, 1)))
+    if where == 'custom_target':
+        # the number of inputs and outputs of the statement is a dimension: the placeholders a command may use depend on it, and
+        # statements of different shapes stand next to each other in one build definition (declared interleaved)
+        ctx1 = emb_contexts(1)
+        extra = []
+        for shape, phs in EMB_SHAPES:
+            for ph in phs:
+                for pre in ctx1:
+                    for suf in ctx1:
+                        extra.append((ph, pre, suf, shape))
+        extra.sort(key=lambda c: (c[1], c[2], c[0]))
+        for ph, pre, suf, shape in extra:
+            cases.append(('e%d' % len(cases), ph, pre, suf, shape))
     L = ["project('em', 'c')", "dump = find_program(%s)" % lit(DUMP)]
     gens = []
-    for name, ph, pre, suf in cases:
+    for name, ph, pre, suf, shape in cases:
         df = os.path.join(root, 'd', name + '.dump')
         arg = lit(pre + ph + suf)
         if where == 'generator':
@@ -720,10 +737,12 @@ def run_embedded(job):
         elif where == 'run_target':
             L.append("run_target('%s', command: [dump, '--dump=%s', 'first', %s, 'last'])" % (name, df, arg))
         else:
-            L.append("custom_target('%s', input: 'a.in', output: '%s.out', command: [dump, '--dump=%s', 'first', %s, 'last'])" % (name, name, df, arg))
+            ins = {0: '', 1: "input: 'a.in', ", 2: "input: ['a.in', 'b.in'], "}[shape[0]]
+            outs = "'%s.out'" % name if shape[1] == 1 else "['%s.out', '%s.out2']" % (name, name)
+            L.append("custom_target('%s', %soutput: %s, command: [dump, '--dump=%s', 'first', %s, 'last'])" % (name, ins, outs, df, arg))
     if gens:
         L.append("executable('ex', %s)" % ', '.join(gens))
-    mp.write_tree(root, {'meson.build': '\n'.join(L) + '\n', 'a.in': 'int main(void) { return 0; }\n', 'd/.keep': ''})
+    mp.write_tree(root, {'meson.build': '\n'.join(L) + '\n', 'a.in': 'int main(void) { return 0; }\n', 'b.in': 'b\n', 'd/.keep': ''})
     out = {'viol': [], 'cases': 0, 'by_kind': {}, 'wrapped': 0, 'rsp_edges': 0, 'emb': {'contexts': len(ctx), 'compared': 0, 'literal_at_before': 0}}
     r = mp.run_meson(['setup', 'b'], root, env=mp.base_env(home=os.path.join(root, 'home')), timeout=600)
     if r.rc != 0:
@@ -749,12 +768,13 @@ def run_embedded(job):
     # the value a placeholder stands for: what the argument that is exactly the placeholder arrives as (for @OUTPUT@ it names the
     # statement's own output, so the target's name is put back in)
     ref = {}
-    for name, ph, pre, suf in cases:
+    for name, ph, pre, suf, shape in cases:
         if not pre and not suf:
             v = got.get(name)
-            ref[ph] = (name, v[0] if v and len(v) == 1 else None)
-    for name, ph, pre, suf in cases:
-        rname, rv = ref[ph]
+            ref[ph, shape] = (name, v[0] if v and len(v) == 1 else None)
+    for name, ph, pre, suf, shape in cases:
+        rname, rv = ref[ph, shape]
+        out['emb']['other_shapes'] = out['emb'].get('other_shapes', 0) + (shape != (1, 1))
         rep_ = {'embedded': [where, n], 'given': pre + ph + suf}
         if rv is None or b(ph) in rv:
             if not pre and not suf:
@@ -1251,7 +1271,7 @@ def main():
             ck.require(len(ph_outcomes.get('substituted', [])) >= 12 and ph_outcomes.get('error'), 'placeholder family one-sided: %r' % {k: len(v) for k, v in ph_outcomes.items()})
     if ck.want('embedded'):
         ck.part('embedded_placeholders', atoms=EMB_ATOMS, placeholders=EMB_PH, **emb)
-        ck.require((emb.get('compared', 0) > 1500 and emb.get('literal_at_before', 0) > 500) or ck.n_viol, 'embedded placeholder family vacuous: %r' % emb)
+        ck.require((emb.get('compared', 0) > 1500 and emb.get('literal_at_before', 0) > 500 and emb.get('other_shapes', 0) > 200) or ck.n_viol, 'embedded placeholder family vacuous: %r' % emb)
     if ck.want('reconf'):
         ck.part('reconfigure_histories', definitions=len(hist_defs(h_ne, h_na)), env_definitions=h_ne, arg_definitions=h_na, steps=h_steps, **hist)
         ck.require(hist.get('histories', 0) == len(hist_defs(h_ne, h_na)) * (len(hist_defs(h_ne, h_na)) - 1) * len(HIST_POSITIONS) or ck.n_viol,
@@ -1276,7 +1296,7 @@ def main():
                    'test args+env x {exitcode,tap}, c_args -D family, c_args neutral, link_args, project/global/project-link args} x {direct, response files forced}; '
                    'plus all ordered pairs of command definitions (env method/separator/unset/values x argument lists) as configure-edit-reconfigure histories of one '
                    'build directory, and all pairs of env definitions on two targets with the same command line; '
-                   'plus every documented placeholder between all contexts of <= 2 (thorough 3) literal atoms of {@,u,:} on either side, in custom_target / run_target / generator arguments; '
+                   'plus every documented placeholder between all contexts of <= 2 (thorough 3) literal atoms of {@,u,:} on either side, in custom_target / run_target / generator arguments, for custom targets also with 0-2 inputs and 1-2 outputs (statements of different shapes interleaved in one build definition); '
                    'evaluations = argument occurrences compared; distinct_nontrivial = positions/modes observed' % (len(strings), n, len(SPECIALS)),
               exhaustive=True)
 
